@@ -247,6 +247,13 @@ func adapterSpecials() (evals int, fails [][2]string) {
 		}
 		p.close()
 	}
+	// Close while a Write is blocked by back-pressure (sys_c07_blocked.go)
+	{
+		evals++
+		if msg := adapterCloseDuringBlockedWrite(); msg != "" {
+			fail("adapter-close-blocked-by-write", msg)
+		}
+	}
 	// close frame => error (net.ErrClosed), after the pending data
 	{
 		evals++
